@@ -151,6 +151,12 @@ def families(prop, tier):
             fams.append(dict(name='markfault-dict', mode='dfs', depth=6 if q else 8, budget=500 if q else 20000,
                              cfg=dict(backend='dict', gate_store=False, nmsgs=2, nrcpt=3, backoff=[0, 0, None], fail_delivered=fd,
                                       outcomes=['ok', 'T1', 'map:ott', 'map:pto', 'map:ot', 'map:tt', 'map:t'])))
+    if prop in ('C12',):
+        # start-up over a disk directory that holds, besides real messages, what a killed writer left behind
+        for orph, pre in ((1, 3), (2, 3), (3, 4), (2, 5)):
+            fams.append(dict(name='damagedstart-disk', mode='plans', plans=[[]],
+                             cfg=dict(backend='disk', gate_store=False, orphans=orph, preload=pre, nmsgs=0, nrcpt=1, backoff=[5, None],
+                                      outcomes=['ok', 'T1'])))
     if prop in ('C01', 'C12'):
         # flush() in the life of a message that keeps failing for a while: flushed, failed again, put back, due, attempted ...
         fams.append(dict(name='flushretry-dict', mode='dfs', depth=8 if q else 10, budget=600 if q else 30000,
